@@ -138,11 +138,25 @@ def check_c14(ctx, R):
     R.rule("R1", "no shared-state write before a refusal point on any path of an IR mutator")
     R.rule("R1c", "compound constructors: nothing of the half-built element is registered before the fallible add")
     n_mut = n_ctor = 0
+    # a private method that is only ever called by constructors on the element under construction works on a half-built, unshared
+    # element just as the constructor does (`self._set_initial_properties(properties)` at the end of every __init__)
+    sites = {}
+    for f_ in T.funcs.values():
+        for evs in M.events(f_).by_node.values():
+            for ev in evs:
+                if ev.kind == "call" and not ev.ctor:
+                    for t in ev.targets or []:
+                        sites.setdefault(t.key, []).append((f_, norm(ev.recv) if ev.recv is not None else None))
+    ctor_helpers = set()
+    for k_, f_ in T.funcs.items():
+        if f_.name.startswith("_") and not f_.name.startswith("__") and f_.role == "method" and sites.get(k_) \
+                and all(c_.name == "__init__" and r_ == "self" for c_, r_ in sites[k_]):
+            ctor_helpers.add(k_)
     for (key, nones), s in sorted(T.table.items(), key=lambda kv: (kv[0][0], sorted(kv[0][1]))):
         if nones:
             continue
         f = T.funcs[key]
-        if is_clone_family(f):
+        if is_clone_family(f) or key in ctor_helpers:
             continue
         shared = [w for w in s.writes if w[0] != "fresh"]
         if not shared:
